@@ -861,9 +861,15 @@ def _parse_source_for_lambda(
 
     # If this is a function, then things are going to be very easy.
     if start_token.string == "def":
-        function_source = _realign_indent(inspect.getsource(ast_source))
-        a_module = ast.parse(function_source)
-        lda = rewrite_func_as_lambda(a_module.body[0])  # type: ignore
+        function_source = inspect.getsource(ast_source)
+        if function_source[:1] in (" ", "\t"):
+            # An indented definition: give it a block to live in. Cutting the indent off every
+            # line would also alter the continuation lines of a multi-line string.
+            a_module = ast.parse("if True:\n" + function_source)
+            func_def = a_module.body[0].body[0]  # type: ignore
+        else:
+            func_def = ast.parse(function_source).body[0]
+        lda = rewrite_func_as_lambda(func_def)  # type: ignore
     else:
         # Grab all the lambdas on a single line
         lambdas_on_a_line = defaultdict(list)
